@@ -25,6 +25,9 @@ class Run(object):
         b = cfg.get('bounds')
         if b:
             self.box = (FL(b['lo']), FL(b['hi']))
+            if b.get('prev'):
+                # the ranges are given twice: first a smaller box (same mode), then the one that counts
+                s.SetStrictRanges(FL(b['prev'][0]), FL(b['prev'][1]), tight=b.get('tight'), clip=b.get('clip'))
             s.SetStrictRanges(list(self.box[0]), list(self.box[1]), tight=b.get('tight'), clip=b.get('clip'))
         # 'kw_first': penalty and constraints are handed to the first Step as keywords (documented inputs of Step/Solve,
         # kept by the solver from then on) instead of through SetPenalty / SetConstraints
@@ -125,6 +128,10 @@ def configs(draw, tier='quick', solvers=lab.SOLVERS, need_constraint=False, allo
         box = (lo, hi)
         tc = draw(st.sampled_from(list(clip_modes)))
         cfg['bounds'] = dict(lo=lo, hi=hi, tight=tc[0], clip=tc[1])
+        if draw(st.integers(0, 4)) == 0:
+            f1 = draw(st.sampled_from([0.0, 0.25, 0.5])); f2 = draw(st.sampled_from([0.1, 0.25, 0.5]))
+            cfg['bounds']['prev'] = [[F(l) + f1 * (F(h) - F(l)) for l, h in zip(lo, hi)],
+                                     [F(l) + min(1.0, f1 + f2) * (F(h) - F(l)) for l, h in zip(lo, hi)]]
     use_con = need_constraint or draw(st.integers(0, 2)) == 0
     if use_con:
         for _ in range(8):
